@@ -811,7 +811,9 @@ def run(ctx):
         pjobs.append(("p%d" % i, t, t2, fps, rng.randrange(1 << 30)))
     # prefix jobs
     xjobs = []
-    ptexts = [EXPR, "S: 'a' S | 'a';", "S: A A; A: 'a' | 'a' 'a';"]
+    # the last one has non-ASCII terminal names: whatever encoding the cache is written in, a byte
+    # prefix that ends inside a multi-byte character must be treated like any other damaged cache
+    ptexts = [EXPR, "S: 'a' S | 'a';", "S: A A; A: 'a' | 'a' 'a';", "S: '\u03bb' S | '\u2192';"]
     if not quick:
         ptexts += [t for _, t in gramgen.CURATED[:12]]
     for i, t in enumerate(ptexts):
